@@ -779,6 +779,37 @@ func extractC03(c *Ctx) error {
 					sub := &c03Fn{c: c, req: vb.Recv.List[0].Names[0].Name, auth: map[string]bool{}, assign: map[string][]ast.Expr{}}
 					sub.collectAssigns(vb.Body)
 					eqs = append(eqs, sub.guards(vb.Body, "ValidateBasic", token.Pos(1))...)
+					// an ownership comparison the table relies on must not be preceded by an early success:
+					// `return nil` before it lets a message through unchecked
+					var last token.Pos
+					for _, g := range sub.guards(vb.Body, "ValidateBasic", token.NoPos) {
+						if g.Pos > last {
+							last = g.Pos
+						}
+					}
+					if last != token.NoPos {
+						var early token.Pos
+						ast.Inspect(vb.Body, func(n ast.Node) bool {
+							rs, ok := n.(*ast.ReturnStmt)
+							if !ok || rs.Pos() >= last {
+								return true
+							}
+							allNil := len(rs.Results) > 0
+							for _, r := range rs.Results {
+								if id, ok := r.(*ast.Ident); !ok || id.Name != "nil" {
+									allNil = false
+								}
+							}
+							if allNil && early == token.NoPos {
+								early = rs.Pos()
+							}
+							return true
+						})
+						if early != token.NoPos {
+							return fmt.Errorf("%s.ValidateBasic: `return nil` at %s precedes the creator / authority comparison at %s: a message can pass before its ownership check (shape not understood)",
+								name, c.Fset.Position(early), c.Fset.Position(last))
+						}
+					}
 				}
 			}
 			uses := an.uses(hd.Body)
